@@ -156,6 +156,7 @@ func (s *Server) Session(strm signaling.SRPCSignaling_SessionStream) error {
 	// (below) is woken as well and announces the session state to our peer.
 	waitCh := sess.getWaitCh()
 	sess.broadcast()
+	verifSessionEvent(s, "init", strm, sess, ourPeerTkr, srcPeerIDStr, dstPeerIDStr, 0, 0)
 
 	s.mtx.Unlock()
 
@@ -189,6 +190,7 @@ func (s *Server) Session(strm signaling.SRPCSignaling_SessionStream) error {
 			// Release the peer if there is no want & no session.
 			_ = s.maybeReleasePeer(dstPeerIDStr)
 		}
+		verifSessionEvent(s, "end", strm, sess, ourPeerTkr, srcPeerIDStr, dstPeerIDStr, 0, 0)
 		s.mtx.Unlock()
 	}()
 
@@ -207,6 +209,7 @@ func (s *Server) Session(strm signaling.SRPCSignaling_SessionStream) error {
 		// Mark the outgoing message.
 		s.mtx.Lock()
 		defer s.mtx.Unlock()
+		defer verifSessionEvent(s, "send", strm, sess, ourPeerTkr, srcPeerIDStr, dstPeerIDStr, msgSessionSeqno, sendMsg.GetSeqno())
 
 		// If the sequence number is wrong, drop the packet.
 		seqnoCurrent, err := sess.checkSeqno(msgSessionSeqno)
@@ -231,6 +234,7 @@ func (s *Server) Session(strm signaling.SRPCSignaling_SessionStream) error {
 	handleAckMsg := func(msgSessionSeqno, ack uint64) error {
 		s.mtx.Lock()
 		defer s.mtx.Unlock()
+		defer verifSessionEvent(s, "ack", strm, sess, ourPeerTkr, srcPeerIDStr, dstPeerIDStr, msgSessionSeqno, ack)
 
 		// If the sequence number is wrong, drop the packet.
 		seqnoCurrent, err := sess.checkSeqno(msgSessionSeqno)
@@ -255,6 +259,7 @@ func (s *Server) Session(strm signaling.SRPCSignaling_SessionStream) error {
 	handleClearMsg := func(msgSessionSeqno, clear uint64) error {
 		s.mtx.Lock()
 		defer s.mtx.Unlock()
+		defer verifSessionEvent(s, "clear", strm, sess, ourPeerTkr, srcPeerIDStr, dstPeerIDStr, msgSessionSeqno, clear)
 
 		// If the sequence number is wrong, drop the packet.
 		seqnoCurrent, err := sess.checkSeqno(msgSessionSeqno)
@@ -347,6 +352,7 @@ func (s *Server) Session(strm signaling.SRPCSignaling_SessionStream) error {
 				sess.broadcast()
 			}
 		}
+		verifSessionEvent(s, "loop", strm, sess, ourPeerTkr, srcPeerIDStr, dstPeerIDStr, 0, 0)
 		s.mtx.Unlock()
 
 		// If userped, return.
